@@ -61,6 +61,14 @@ class _Base(Persistent):
             gna = typ_gna[1:]
             return (func, (typ,) + gna, state)
 
+        def __copy__(self):
+            # A shallow copy shares this object's child nodes, so unlike a
+            # pickle it cannot be rebuilt as the C class named by __reduce__
+            # (C nodes cannot hold pure-Python children).
+            new = type(self)()
+            new.__setstate__(self.__getstate__())
+            return new
+
         @property
         def __class__(self):
             type_self = type(self)
